@@ -1,4 +1,5 @@
 """C20 — Pub/Sub decorators are transparent; delay stamps and metrics count exactly."""
+import json
 from . import common as C
 
 HEADER = 'From WM Require Import Base.Prelude Message.Model Handler.RouterHandle Decor.Model Decor.Monitor Corr.C20.\n'
@@ -78,6 +79,19 @@ def pub_case(c):
 def sdec(d):
     return '(STransform %s)' % N(d[1]) if d[0] == 'T' else '(SMetrics %s)' % N(d[1])
 
+def expand_ops(ops):
+    """a draining Close = the wrapped subscriber hands out further messages inside its Close, the consumer
+    settles them, then the subscription ends: for the model that IS emit/settle ... then Close"""
+    out = []
+    for o in ops:
+        if o[0] == 'd':
+            for it in o[1]:
+                out.append(['e', it[0]]); out.append(['s', it[0], it[1]])
+            out.append(['c'])
+        else:
+            out.append(o)
+    return out
+
 def sop(o):
     if o[0] == 'e': return '(SoEmit %d)' % o[1]
     if o[0] == 's': return '(SoSettle %d %s)' % (o[1], B(o[2]))
@@ -88,7 +102,7 @@ def sub_case(c):
     out = L(['(%d, %s, %s)' % (o[0], N(o[1]), L([N(t) for t in o[2]])) for o in c['out']])
     seen = '(SSeen %s %s %d %s %s)' % (out, L([ST[s] for s in c['final']]), c['closes'],
                                        L(['(%s, %s)' % (optN(r[0]), optN(r[1])) for r in c['close_ret']]), tab3(c['tab']))
-    return '(SubCase %s %s %s %s %s)' % (L([sdec(d) for d in c['stack']]), heap, L([sop(o) for o in c['ops']]), seen, L([B(r) for r in c['rets']]))
+    return '(SubCase %s %s %s %s %s)' % (L([sdec(d) for d in c['stack']]), heap, L([sop(o) for o in expand_ops(c['ops'])]), seen, L([B(r) for r in c['rets']]))
 
 HOUT = ['HOk', 'HErr', 'HPanic']
 def mw_case(c):
@@ -123,9 +137,9 @@ def describe_pub(c, strings):
                 publish_time_seconds=[[s(r[0]), s(r[1])] + r[2:] for r in c['tab']], close=c['close'])
 
 def describe_sub(c, strings):
-    return dict(kind='subscriber stack', stack=c['stack'], ops=c['ops'], received=c['out'], final=[ST[x] for x in c['final']], closes=c['closes'],
+    return dict(kind='subscriber stack', stack=c['stack'], ops=c['ops'], received=c['out'], final=[ST[x] for x in (c['final'] or [])], closes=c['closes'],
                 close_returns=c['close_ret'], ack_nack_returns=c['rets'],
-                subscriber_messages_received_total=[[strings[r[0]], strings[r[1]]] + r[2:] for r in c['tab']])
+                subscriber_messages_received_total=[[strings[r[0]], strings[r[1]]] + r[2:] for r in (c['tab'] or [])])
 
 def describe_mw(c, strings):
     return dict(kind='handler middleware' + (' in a Router with AddPrometheusRouterMetrics' if c['router'] else ' called directly'), times_applied=c['layers'],
@@ -157,6 +171,8 @@ def one_round(res, pid, seed, n, rnd, race=False):
     binary = C.build_harness(race=race)
     data, _ = C.run_harness(binary, ['c20', '-seed', str(seed), '-n', str(n)], pid, 'c20_%d.json' % rnd)
     strings = data['strings']
+    res.count('delay values built >= 1.1 s before being stamped (context / generator)', data.get('old_delay_picks', 0))
+    res.extra['old_delay_age_ms'] = data.get('old_delay_age_ms')
     # ---- glue
     for name, ok in sorted(data['glue'].items()):
         res.evaluations += 1
@@ -192,11 +208,13 @@ def one_round(res, pid, seed, n, rnd, race=False):
                                         tuple(first_decisions(c)), c['concurrent']))
             else:
                 res.count('sub closes=%d' % c['closes'])
+                for o in c['ops']:
+                    if o[0] == 'd': res.count('sub draining Close handing out %d message(s)' % len(o[1]))
                 res.count('sub objects published through a metrics publisher before', c['pre_published'])
                 res.count('sub counted=%d' % sum(r[3] for r in c['tab']))
                 res.count('sub unsettled at end=%d' % len([x for x in c['final'] if x == 0]))
                 if c['stack']:
-                    res.nontrivial.add(('sub', shape(c['stack']), tuple(tuple(o) for o in c['ops'])))
+                    res.nontrivial.add(('sub', shape(c['stack']), json.dumps(c['ops'])))
         for part, chunk in enumerate(C.chunks(good, 150)):
             r = C.coq_eval(pid, 'cases_%s_%d_%d' % (key, rnd, part), HEADER + 'Definition cases : list %s := %s.\n' % (typ, L([term(c) for c in chunk])),
                            [('R_mis', fns[0]), ('R_vio', fns[1])] + ([('R_self', fns[2])] if len(fns) > 2 else []))
